@@ -253,12 +253,27 @@ func (p *Prog) Exec(line string) string {
 		})
 	case "minprec":
 		return p.Op(line, nil, func() string { return strconv.FormatUint(uint64(v(1).MinPrec()), 10) })
-	case "text": // text x fmt prec
-		return p.Op(line, nil, func() string { return hex.EncodeToString([]byte(v(1).Text(t[2][0], atoi(t[3])))) })
-	case "sprintf": // sprintf x hexformat
+	case "text": // text x fmt prec  ->  "<hex of output> <hex of strconv.FormatFloat output or ->"
 		return p.Op(line, nil, func() string {
-			f, _ := hex.DecodeString(t[2])
-			return hex.EncodeToString([]byte(fmt.Sprintf(string(f), v(1))))
+			f, prec := t[2][0], atoi(t[3])
+			out := hex.EncodeToString([]byte(v(1).Text(f, prec)))
+			ref := "-"
+			if fl, ok := dyadic(v(1)); ok && prec >= 0 && strings.IndexByte("eEfgG", f) >= 0 {
+				ref = hex.EncodeToString([]byte(strconv.FormatFloat(fl, f, prec, 64)))
+			}
+			return out + " " + ref
+		})
+	case "sprintf": // sprintf x hexformat -> "<hex> <hex of fmt.Sprintf(format, float64) or ->"
+		return p.Op(line, nil, func() string {
+			fb, _ := hex.DecodeString(t[2])
+			format := string(fb)
+			out := hex.EncodeToString([]byte(fmt.Sprintf(format, v(1))))
+			ref := "-"
+			verb := format[len(format)-1]
+			if fl, ok := dyadic(v(1)); ok && strings.Contains(format, ".") && strings.IndexByte("eEfFgG", verb) >= 0 {
+				ref = hex.EncodeToString([]byte(fmt.Sprintf(format, fl)))
+			}
+			return out + " " + ref
 		})
 	case "marshaltext":
 		return p.Op(line, nil, func() string { b, _ := v(1).MarshalText(); return hex.EncodeToString(b) })
@@ -270,20 +285,31 @@ func (p *Prog) Exec(line string) string {
 			}
 			return hex.EncodeToString(b)
 		})
-	case "parse": // parse z base hexstring  -> "ok base" | "err"
+	case "parse": // parse z base [hexstring]  -> "<ok base|err> big=<ok base|err>"
 		return p.Op(line, []int{vi(1)}, func() string {
-			s, _ := hex.DecodeString(t[3])
-			d, b, err := v(1).Parse(string(s), atoi(t[2]))
+			var s []byte
+			if len(t) > 3 {
+				s, _ = hex.DecodeString(t[3])
+			}
+			base := atoi(t[2])
+			big1 := "err"
+			if _, bb, e := new(big.Float).Parse(string(s), base); e == nil {
+				big1 = "ok " + strconv.Itoa(bb)
+			} else if strings.Contains(e.Error(), "exponent overflow") {
+				// big.Float's exponent range is binary int32: not a statement about the grammar
+				big1 = "na"
+			}
+			d, b, err := v(1).Parse(string(s), base)
 			if err != nil {
 				if d != nil {
-					return "err-nonnil"
+					return "err-nonnil big=" + big1
 				}
-				return "err"
+				return "err big=" + big1
 			}
 			if d != v(1) {
-				return "ok-other"
+				return "ok-other big=" + big1
 			}
-			return "ok " + strconv.Itoa(b)
+			return "ok " + strconv.Itoa(b) + " big=" + big1
 		})
 	case "setstring":
 		return p.Op(line, []int{vi(1)}, func() string {
@@ -507,4 +533,30 @@ func bigFloatString(f *big.Float) string {
 	m.SetMantExp(m, int(mp))
 	i, _ := m.Int(nil)
 	return fmt.Sprintf("fin %s %s %d %d %d", sign, bigToWords(i), e-int(mp), f.Prec(), int(f.Acc()))
+}
+
+// dyadic reports whether x is finite, in ToNearestEven mode, and exactly a float64 (so that
+// strconv/fmt applied to that float64 are an oracle for the digits and the layout).
+func dyadic(x *decimal.Decimal) (float64, bool) {
+	if x.IsInf() || x.Mode() != decimal.ToNearestEven {
+		return 0, false
+	}
+	if x.IsZero() {
+		if x.Signbit() {
+			return math.Copysign(0, -1), true
+		}
+		return 0, true
+	}
+	if e := x.MantExp(nil); e > 300 || e < -300 {
+		return 0, false
+	}
+	r, _ := x.Rat(nil)
+	if r == nil {
+		return 0, false
+	}
+	f, exact := r.Float64()
+	if !exact || math.IsInf(f, 0) {
+		return 0, false
+	}
+	return f, true
 }
